@@ -6,7 +6,7 @@ set_option linter.unusedSectionVars false
 namespace Ucan.Tie
 open Ucan Ucan.GoM
 
-variable {D C S : Type} [DecidableEq D]
+variable {D C S A : Type} [DecidableEq D]
 
 /-- `delegation.Token.IsValidAt`, regenerated, is the model's `validAt`; `*t.expiration` is never a nil dereference -/
 theorem Dlg_IsValidAt_eq (undef : D) (pol) (g : Gen.DlgTok D S) (t : Int) :
@@ -16,14 +16,14 @@ theorem Dlg_IsValidAt_eq (undef : D) (pol) (g : Gen.DlgTok D S) (t : Int) :
     simp [gand, notNil, deref, bind, Except.bind, pure, Except.pure] <;> grind
 
 /-- `invocation.Token.IsValidAt` -/
-theorem Inv_IsValidAt_eq {X : Type} (x : X) (args : Node) (g : Gen.InvTok D C) (t : Int) :
+theorem Inv_IsValidAt_eq {X : Type} (x : X) (args : Node) (g : Gen.InvTok D C A) (t : Int) :
     Gen.Inv_IsValidAt g t = pure ((toInv x args g).validAt t) := by
   unfold Gen.Inv_IsValidAt Chain.Inv.validAt Chain.afterBound toInv
   cases he : g.expiration <;>
     simp [gand, notNil, deref, bind, Except.bind, pure, Except.pure] <;> grind
 
 /-- the loop of `verifyTimeBoundAt` from position `k` -/
-theorem verifyTime_loop (undef : D) (pol) (g : Gen.InvTok D C) (ds : List (Gen.DlgTok D S)) (now : Int)
+theorem verifyTime_loop (undef : D) (pol) (g : Gen.InvTok D C A) (ds : List (Gen.DlgTok D S)) (now : Int)
     (hlen : ds.length = g.proof.length) (fuel k : Nat) (hf : ds.length - k < fuel) (hk : k ≤ ds.length) :
     Gen.Inv_verifyTimeBoundAt.loop1 fuel g now ds (k : Int) =
       if ((ds.drop k).map (toDlg undef pol)).all (fun d => d.validAt now) then .ok (.next (ds.length : Int))
@@ -54,7 +54,7 @@ theorem verifyTime_loop (undef : D) (pol) (g : Gen.InvTok D C) (ds : List (Gen.D
       simp [len, h1, bind, Except.bind, pure, Except.pure]
 
 /-- `verifyTimeBoundAt`, regenerated, is the model's `verifyTime` (the function C04 is about) -/
-theorem Inv_verifyTimeBoundAt_eq {X : Type} (x : X) (args : Node) (undef : D) (pol) (g : Gen.InvTok D C)
+theorem Inv_verifyTimeBoundAt_eq {X : Type} (x : X) (args : Node) (undef : D) (pol) (g : Gen.InvTok D C A)
     (ds : List (Gen.DlgTok D S)) (now : Int) (hlen : ds.length = g.proof.length) :
     Gen.Inv_verifyTimeBoundAt g now ds =
       (Chain.verifyTime now (toInv x args g) (ds.map (toDlg undef pol))).mapError chainErr := by
@@ -72,7 +72,7 @@ theorem Inv_verifyTimeBoundAt_eq {X : Type} (x : X) (args : Node) (undef : D) (p
     simp [hi', bind, Except.bind, pure, Except.pure, Except.mapError, chainErr, throw, throwThe, MonadExceptOf.throw]
 
 /-- `verifyTimeBound` is `verifyTimeBoundAt` at the instant `time.Now()` returned (a parameter of the translation) -/
-theorem Inv_verifyTimeBound_eq (now : Int) (g : Gen.InvTok D C) (ds : List (Gen.DlgTok D S)) :
+theorem Inv_verifyTimeBound_eq (now : Int) (g : Gen.InvTok D C A) (ds : List (Gen.DlgTok D S)) :
     Gen.Inv_verifyTimeBound now g ds = Gen.Inv_verifyTimeBoundAt g now ds := by
   unfold Gen.Inv_verifyTimeBound
   cases Gen.Inv_verifyTimeBoundAt g now ds <;> rfl
